@@ -97,7 +97,9 @@ func c39In(list []string, s string) bool {
 }
 
 // no method whitelist configured, or "*" in it = every method whitelisted (types/cfg.go: default "*").
-func c39White(list []string, f string) bool { return len(list) == 0 || c39In(list, "*") || c39In(list, f) }
+func c39White(list []string, f string) bool {
+	return len(list) == 0 || c39In(list, "*") || c39In(list, f)
+}
 
 func (c *c39Cfg) lists(kind string) (white, black []string) {
 	if kind == "jrpc" {
@@ -150,12 +152,11 @@ func (c *c39Cfg) clauses(rq *c39Req, cl c39Client, f string) (failed []string) {
 }
 
 type c39Finding struct {
-	Msg   string      `json:"msg"`
-	Known string      `json:"matches_known_signature,omitempty"`
-	Cfg   *c39Cfg     `json:"cfg"`
-	Reqs  []c39Req    `json:"requests"`
-	Obs   []c39Obs    `json:"observations"`
-	Extra interface{} `json:"note,omitempty"`
+	Msg   string   `json:"msg"`
+	Known string   `json:"matches_known_signature,omitempty"`
+	Cfg   *c39Cfg  `json:"cfg"`
+	Reqs  []c39Req `json:"requests"`
+	Obs   []c39Obs `json:"observations"`
 }
 
 // c39Judge is the oracle.  It is strict; callers decide what to do with findings that match a known signature.
@@ -431,7 +432,9 @@ func c39GenRemote(t *rapid.T, c *c39Cfg, label string, validOnly bool) c39Remote
 	return c39Remote{netip.AddrPortFrom(a, port).String(), a.String(), class}
 }
 
-func c39Basic(u, p string) string { return "Basic " + base64.StdEncoding.EncodeToString([]byte(u+":"+p)) }
+func c39Basic(u, p string) string {
+	return "Basic " + base64.StdEncoding.EncodeToString([]byte(u+":"+p))
+}
 
 func c39GenAuth(t *rapid.T, c *c39Cfg, label string) ([][2]string, string) {
 	h := func(v ...string) (out [][2]string) {
